@@ -287,6 +287,15 @@ package otp
 //@   ensures[trunc] len(s) >= totalLen ==> r == s[len(s)-totalLen:]
 //@   ensures[pad] len(s) < totalLen ==> r == cat(rep("0", totalLen - len(s)), s)
 
+// documented panic on text that is not hexadecimal after padding (excluded from C10): under the
+// precondition "the padded text is hexadecimal" it returns normally with exactly the decoded bytes
+//@ macro hexpadded(s, n) = len(s) >= n ? s[len(s)-n:] : cat(rep("0", n - len(s)), s)
+//@ func otp.MustHexPadLeft(hexStr, size) (r)
+//@   requires 0 <= size && size <= 524288
+//@   requires ishex(hexpadded(hexStr, 2*size))
+//@   ensures[val] view(r) == hexdec(hexpadded(hexStr, 2*size))
+//@   ensures[len] len(r) == size
+
 //@ func otp.ParseHexTimestamp(ts) (r, err)
 //@   loop 1 invariant lpad0(ts, 16) == lpad0(ts0, 16) && len(ts) <= max(len(ts0), 16)
 //@   loop 1 decreases 16 - len(ts)
